@@ -96,6 +96,9 @@ Explains(cfg, s, e) ==
       [] c.op = "display" -> r.st = "ok" /\ ValidCfg(cfg, 0)
       [] c.op = "parse"   -> ParseOk(cfg, s, a, r)
       [] c.op = "sniff"   -> r.st = "ok"
+      [] c.op = "write_fail" -> r.st = "ok"      \* another writer object ran into a hard I/O error: it may report
+                                                \* errors but must not panic; nothing else about it is judged. The
+                                                \* writers and readers that follow are judged as usual.
       [] c.op = "sniff_at" -> SniffAtOk(cfg, a, r)
       [] OTHER -> FALSE
 
